@@ -640,6 +640,7 @@ func (a *Allocation) swapBlockAllocation(alloc *Allocation) error {
 		panic(fmt.Sprintf("unexpected error when attempting to set current metadata during block swap: %+v", err))
 	}
 	a.blockData, alloc.blockData = alloc.blockData, a.blockData
+	a.memory, alloc.memory = alloc.memory, a.memory
 	err = a.blockData.block.metadata.SetAllocationUserData(a.blockData.handle, a)
 	if err != nil {
 		panic(fmt.Sprintf("unexpected error when attempting to set new metadata during block swap: %+v", err))
